@@ -26,6 +26,7 @@ type Value struct {
 	Cap   Term // slices: capacity
 	Tuple []Value
 	Type  types.Type // static Go type when known (may be nil)
+	ArgType types.Type // static type of the argument expression when bound to an interface-typed parameter
 }
 
 func scalar(t Term) Value { return Value{K: kScalar, T: t} }
@@ -92,6 +93,9 @@ func (fv *FV) heapSet(e *Env, comp string, v Term) {
 
 // havocAll forgets everything about the heap (a call into unknown code).
 func (fv *FV) havocAll(e *Env) {
+	if fv.curCall != "" {
+		fv.note("whole heap havocked at %s", fv.curCall)
+	}
 	fv.nextEpoch++
 	e.epoch = fv.nextEpoch
 	e.heap = map[string]Term{}
